@@ -4,7 +4,6 @@ CONSTANTS
   Modes <- AllModes
   InOrder = TRUE
   Placement = "by_tag"
-  NCases = 0
 INIT SchedInit
 NEXT SchedNext
 INVARIANT EmitSched
